@@ -56,15 +56,15 @@ func (b *exampleBuilder) buildExampleForObjectNode(node *ischema.ObjectNode) ([]
 	defer exampleBufferPool.Put(buf)
 
 	buf.WriteByte('{')
-	children := node.Children()
-	length := len(children)
-	for i, childNode := range children {
+	written := 0
+	for i, childNode := range node.Children() {
 		ex, err := b.Build(childNode)
 		if err != nil {
 			return nil, err
 		}
 
 		if ex == nil {
+			// Skipped (recursion limit): must not leave a dangling comma.
 			continue
 		}
 
@@ -73,13 +73,14 @@ func (b *exampleBuilder) buildExampleForObjectNode(node *ischema.ObjectNode) ([]
 			return nil, err
 		}
 
+		if written != 0 {
+			buf.WriteByte(',')
+		}
+		written++
 		buf.WriteByte('"')
 		buf.Write(k)
 		buf.WriteString(`":`)
 		buf.Write(ex)
-		if i+1 != length {
-			buf.WriteByte(',')
-		}
 	}
 	buf.WriteByte('}')
 	return ownedCopy(buf.Bytes()), nil
@@ -124,22 +125,23 @@ func (b *exampleBuilder) buildExampleForArrayNode(node *ischema.ArrayNode) ([]by
 	defer exampleBufferPool.Put(buf)
 
 	buf.WriteByte('[')
-	children := node.Children()
-	length := len(children)
-	for i, childNode := range children {
+	written := 0
+	for _, childNode := range node.Children() {
 		ex, err := b.Build(childNode)
 		if err != nil {
 			return nil, err
 		}
 
 		if ex == nil {
+			// Skipped (recursion limit): must not leave a dangling comma.
 			continue
 		}
 
-		buf.Write(ex)
-		if i+1 != length {
+		if written != 0 {
 			buf.WriteByte(',')
 		}
+		written++
+		buf.Write(ex)
 	}
 	buf.WriteByte(']')
 	return ownedCopy(buf.Bytes()), nil
